@@ -40,7 +40,7 @@ TReset ==
   /\ workers' = Ev.initial /\ ctr' = 0 /\ queue' = <<>>
   /\ wst' = [w \in Wids |-> IF w <= Ev.initial THEN "recv" ELSE "none"]
   /\ wjob' = [w \in Wids |-> 0]
-  /\ apc' = "idle" /\ nextJob' = 1 /\ mayFinish' = {} /\ served' = {} /\ doneJobs' = {}
+  /\ apc' = "idle" /\ nextJob' = 1 /\ mayFinish' = {} /\ crash' = {} /\ served' = {} /\ doneJobs' = {}
   /\ sentEarly' = FALSE /\ dropEarly' = FALSE /\ unc' = 0 /\ maxNow' = Ev.max /\ njobsNow' = Ev.njobs /\ started' = {}
   /\ grewEarly' = FALSE
 
@@ -49,14 +49,14 @@ TAccCount ==
   /\ apc = "idle"
   /\ ctr' = ctr + 1 /\ ctr' = Ev.a /\ workers = Ev.b
   /\ apc' = "counted" /\ unc' = 0
-  /\ UNCHANGED <<workers, queue, wst, wjob, nextJob, mayFinish, served, doneJobs, sentEarly, dropEarly, maxNow, njobsNow, started, grewEarly>>
+  /\ UNCHANGED <<workers, queue, wst, wjob, nextJob, mayFinish, crash, served, doneJobs, sentEarly, dropEarly, maxNow, njobsNow, started, grewEarly>>
 
 TAccSend ==
   /\ IsEv("acc_send")
   /\ apc = "counted"
   /\ IF sentEarly THEN UNCHANGED queue ELSE queue' = Append(queue, nextJob)
   /\ apc' = "sent" /\ sentEarly' = FALSE
-  /\ UNCHANGED <<workers, ctr, wst, wjob, nextJob, mayFinish, served, doneJobs, dropEarly, unc, maxNow, njobsNow, started, grewEarly>>
+  /\ UNCHANGED <<workers, ctr, wst, wjob, nextJob, mayFinish, crash, served, doneJobs, dropEarly, unc, maxNow, njobsNow, started, grewEarly>>
 
 GrowWith(c) == c > workers /\ workers < maxNow
 
@@ -72,7 +72,7 @@ TAccDecide ==
                  /\ wst' = [wst EXCEPT ![workers + 1] = "recv"]
             ELSE /\ Ev.b = workers /\ UNCHANGED <<workers, wst>>
   /\ apc' = "idle" /\ nextJob' = nextJob + 1 /\ grewEarly' = FALSE
-  /\ UNCHANGED <<ctr, queue, wjob, mayFinish, served, doneJobs, sentEarly, dropEarly, unc, maxNow, njobsNow, started>>
+  /\ UNCHANGED <<ctr, queue, wjob, mayFinish, crash, served, doneJobs, sentEarly, dropEarly, unc, maxNow, njobsNow, started>>
 
 \* the worker spawned by the decision that is not logged yet dequeues a job
 TWRecvNew ==
@@ -86,7 +86,7 @@ TWRecvNew ==
        /\ wst' = [wst EXCEPT ![workers + 1] = "ready"]
        /\ wjob' = [wjob EXCEPT ![workers + 1] = queue[i]]
   /\ workers' = workers + 1 /\ grewEarly' = TRUE
-  /\ UNCHANGED <<ctr, apc, nextJob, mayFinish, served, doneJobs, sentEarly, dropEarly, unc, maxNow, njobsNow, started>>
+  /\ UNCHANGED <<ctr, apc, nextJob, mayFinish, crash, served, doneJobs, sentEarly, dropEarly, unc, maxNow, njobsNow, started>>
 
 \* a worker dequeues: a job (a = 1) or a Terminate (a = 0)
 TWRecv ==
@@ -112,7 +112,7 @@ TWRecv ==
            /\ queue' = queue \o [i \in 1..(workers - 1) |-> 0]
            /\ wst' = [wst EXCEPT ![w] = "dead"] /\ UNCHANGED wjob
            /\ dropEarly' = TRUE /\ UNCHANGED sentEarly
-  /\ UNCHANGED <<workers, ctr, apc, nextJob, mayFinish, served, doneJobs, unc, maxNow, njobsNow, started, grewEarly>>
+  /\ UNCHANGED <<workers, ctr, apc, nextJob, mayFinish, crash, served, doneJobs, unc, maxNow, njobsNow, started, grewEarly>>
 
 TJobStart ==
   /\ IsEv("job_start")
@@ -123,7 +123,7 @@ TJobStart ==
      /\ wst' = [wst EXCEPT ![w] = "running"]
      /\ wjob' = [wjob EXCEPT ![w] = Ev.a]       \* bind the job identity here
      /\ served' = served \cup {Ev.a}
-  /\ UNCHANGED <<workers, ctr, queue, apc, nextJob, mayFinish, doneJobs, sentEarly, dropEarly, unc, maxNow, njobsNow, grewEarly>>
+  /\ UNCHANGED <<workers, ctr, queue, apc, nextJob, mayFinish, crash, doneJobs, sentEarly, dropEarly, unc, maxNow, njobsNow, grewEarly>>
 
 TJobEnd ==
   /\ IsEv("job_end")
@@ -131,7 +131,7 @@ TJobEnd ==
      /\ wst[w] = "running" /\ wjob[w] = Ev.a
      /\ wst' = [wst EXCEPT ![w] = "finished"]
      /\ doneJobs' = doneJobs \cup {Ev.a}
-     /\ mayFinish' = mayFinish \cup {Ev.a}
+     /\ crash' = crash /\ mayFinish' = mayFinish \cup {Ev.a}
   /\ UNCHANGED <<workers, ctr, queue, wjob, apc, nextJob, served, sentEarly, dropEarly, unc, maxNow, njobsNow, started, grewEarly>>
 
 TWUncount ==
@@ -141,7 +141,7 @@ TWUncount ==
      /\ ctr' = ctr - 1 /\ ctr' = Ev.a
      /\ wst' = [wst EXCEPT ![w] = "recv"] /\ wjob' = [wjob EXCEPT ![w] = 0]
   /\ unc' = unc + 1
-  /\ UNCHANGED <<workers, queue, apc, nextJob, mayFinish, served, doneJobs, sentEarly, dropEarly, maxNow, njobsNow, started, grewEarly>>
+  /\ UNCHANGED <<workers, queue, apc, nextJob, mayFinish, crash, served, doneJobs, sentEarly, dropEarly, maxNow, njobsNow, started, grewEarly>>
 
 TDropSend ==
   /\ IsEv("drop_send")
@@ -149,7 +149,7 @@ TDropSend ==
   /\ Ev.b = workers
   /\ IF dropEarly THEN UNCHANGED queue ELSE queue' = queue \o [i \in 1..workers |-> 0]
   /\ apc' = "dropping" /\ dropEarly' = FALSE
-  /\ UNCHANGED <<workers, ctr, wst, wjob, nextJob, mayFinish, served, doneJobs, sentEarly, unc, maxNow, njobsNow, started, grewEarly>>
+  /\ UNCHANGED <<workers, ctr, wst, wjob, nextJob, mayFinish, crash, served, doneJobs, sentEarly, unc, maxNow, njobsNow, started, grewEarly>>
 
 TDropJoined ==
   /\ IsEv("drop_joined")
@@ -157,7 +157,7 @@ TDropJoined ==
   /\ \A w \in 1..workers : wst[w] = "dead"
   /\ doneJobs = 1..njobsNow                      \* drop returns only after every accepted job has finished
   /\ apc' = "dropped"
-  /\ UNCHANGED <<workers, ctr, queue, wst, wjob, nextJob, mayFinish, served, doneJobs, sentEarly, dropEarly, unc, maxNow, njobsNow, started, grewEarly>>
+  /\ UNCHANGED <<workers, ctr, queue, wst, wjob, nextJob, mayFinish, crash, served, doneJobs, sentEarly, dropEarly, unc, maxNow, njobsNow, started, grewEarly>>
 
 TraceInit ==
   /\ PInit /\ l = 1 /\ sentEarly = FALSE /\ dropEarly = FALSE /\ unc = 0 /\ maxNow = Max /\ njobsNow = NJobs /\ started = {}
